@@ -133,7 +133,7 @@ Print Assumptions C12_bound_pressure_neumann.
    generated grid implies the real-valued hypothesis [korth] used above, for the same data
    read as reals ([in2r] maps every rational coordinate with Q2R). *)
 Theorem C12_korth_checker :
-  forall I : input Q,
+  forall I : input QArith_base.Q,
     korth_b I = true -> forall e : inc, In e (cf (in2r I)) -> korth (in2r I) e.
 Proof. exact korth_transfer. Qed.
 Print Assumptions C12_korth_checker.
